@@ -171,6 +171,10 @@ func (ex *Exec) bigEq(a, b BigVal) *smt.Term {
 		}
 		return eq
 	}
+	if a.G != nil && b.G != nil && a.G.Mod != b.G.Mod && a.G.Reduced && b.G.Reduced && (len(a.G.Exps) > 0 || len(b.G.Exps) > 0) {
+		ex.stubs["assume: group elements computed modulo different moduli never coincide"] = true
+		return smt.False
+	}
 	// a reduced group element against the constant 1
 	if a.G != nil && a.G.Reduced {
 		if v, ok := b.I.ConstInt(); ok && v.Cmp(big.NewInt(1)) == 0 {
